@@ -379,6 +379,11 @@ class D(
 g(x,
             kw=1,
   *args)
+call(a=1, *b, c=2, d=3, e=4)
+class E(k=1, *B, m=2, n=3, **kw): pass
+h(p, q=1, *r, s=2, *t, u=3, v=4, w=5)
+d2 = {a: b, **c}
+d3 = {**x, **y, k: v, **z}
 ''',
 # 17 try variants, nested try
 '''\
